@@ -18,9 +18,10 @@
  *
  * TRUSTED libm CONTRACTS (harness bodies below replace CBMC's models; see NOTES.md):
  *   ldexp  exact scaling by a power of two (exponent-field arithmetic; obligation: stays normal)
- *   log    NaN for x<0/NaN, -inf at 0, 0 at 1, finite <=0 on (0,1), finite >=0 on (1,inf), +inf at +inf
+ *   log    NaN for x<0/NaN, -inf at 0, +0 at 1, +inf at +inf, finite >=0 on (1,inf); on (0,1): -745.2 <= r <= (x-1)/2 < 0
+ *          and r >= 4(x-1) for x >= 1/2
  *   exp    NaN for NaN, 0 at -inf, +inf at +inf, 1 at 0, in [0,1] for x<0, in [1,+inf] for x>0
- *   sqrt   NaN for x<0/NaN, x at +-0, +inf at +inf, finite >0 for finite x>0
+ *   sqrt   NaN for x<0/NaN, x at +-0, +inf at +inf; finite x>0: x <= r <= 1 for x < 1, 1 <= r <= x for x >= 1
  *   pow    (only x>=0 is specified) NaN arguments -> NaN; y==0 -> 1; otherwise any value in [0,+inf];
  *          additionally 0<=x<=1 && y>0 -> in [0,1]; x==0 && y>0 -> 0
  * floor / ceil / fabs: CBMC's exact models.
@@ -74,7 +75,14 @@ double log(double x)
     if (isinf(x)) return INFINITY;
     double r = nondet_double();
     ASSUME(FIN(r));
-    if (x < 1.0) ASSUME(r <= 0.0); else ASSUME(r >= 0.0);
+    if (x < 1.0) {
+        /* log(x) <= x - 1 < 0 and, for x >= 1/2, log(x) >= (x-1)/x >= 2(x-1); stated with a factor 2 of slack
+         * each (scaling by 2 is exact), so that any libm with an error of a few ulp satisfies it */
+        ASSUME(r <= (x - 1.0) * 0.5 && r >= -745.2);
+        if (x >= 0.5) ASSUME(r >= (x - 1.0) * 4.0);
+    } else {
+        ASSUME(r >= 0.0);
+    }
     return r;
 }
 
@@ -95,6 +103,8 @@ double sqrt(double x)
     if (x == 0.0 || isinf(x)) return x;
     double r = nondet_double();
     ASSUME(FIN(r) && r > 0.0);
+    /* sqrt is correctly rounded (IEEE 754) and monotone: x <= sqrt(x) <= 1 on (0,1], 1 <= sqrt(x) <= x on [1,inf) */
+    if (x >= 1.0) ASSUME(r >= 1.0 && r <= x); else ASSUME(r >= x && r <= 1.0);
     return r;
 }
 
@@ -300,8 +310,6 @@ void h_alias_create(void)
     for (unsigned i = 0; i < C16_N; i++) {
         if (i < n) OBT(T2, ap->alias[i] < n, "alias_create: every alias index is < n");
     }
-    const unsigned r = cmb_random_alias_sample(ap);
-    OBT(T2, r < n, "alias_sample on the created table is < n");
     CANARY("h_alias_create end");
 }
 #endif
@@ -581,13 +589,20 @@ void h_p_chisquared(void)
 }
 #endif
 
-/* For the beta family the gamma sampler is replaced by ITS contract (value >= 0, not NaN - the
- * obligation of C16.O4.std_gamma), so that one query contains one sampler. */
+/* For the beta family the gamma sampler is replaced by a contract, so that one query contains one
+ * sampler.  Default contract: value > 0 and finite.  This is STRONGER than what C16.O4.std_gamma
+ * establishes (>= 0, not NaN, and only for shape > 1/3): the strengthening (no exact 0, no +inf) is a
+ * LISTED, UNDISCHARGED assumption (argument in NOTES.md).  With -DC16_GAMMA_WEAK the contract is
+ * exactly the proved one (>= 0, not NaN) and std_beta then fails with 0/(0+0) and inf/(inf+y). */
 double cmv_std_gamma_contract(double shape)
 {
     __CPROVER_assert(shape > 0.0, "cmb_assert_release: shape > 0.0 (std_gamma precondition at the call)");
     double r = nondet_double();
+#ifdef C16_GAMMA_WEAK
     ASSUME(!isnan(r) && r >= 0.0);
+#else
+    ASSUME(FIN(r) && r > 0.0);
+#endif
     return r;
 }
 
